@@ -8,9 +8,10 @@ read groups, the engine logic of the REPAIRED design (`Model/Engine.lean` with `
 from-scratch value of `k` on the inputs committed in `s` and the external values of `s` (`evalSpec`
 never looks at cached values); `Inv` is the engine invariant (`Lemmas/EngineCoreFw1.lean`).
 
-What is proved: every theorem below for programs WITHOUT PROJECTION NODES (`NoProj p`; firewalls,
-transitive firewall sets, the trust rule, the observation refresh, dirty propagation from a changed
-firewall in the same epoch, pending backward projections are all in).  The statements for all five
+What is proved: every theorem below for programs in which NO PROJECTION READS A PROJECTION
+(`NoProjOverProj p`: projections read firewalls only; firewalls, projections, transitive firewall
+sets, the trust rule, the observation refresh, dirty propagation from a changed firewall / projection
+in the same epoch, pending backward projections and their execution are all in).  The statements for all five
 kinds are `C01_full_statement` / `C01_termination_full_statement`; they are NOT proved, and for the
 design without `f1r` they are FALSE (`repair_without_f1r_unsound_shape` documents the history; the
 model with `f1r` answers it correctly).
@@ -38,49 +39,57 @@ def C01_termination_full_statement : Prop :=
     committed inputs would produce": a successful query BY THE USER in a state satisfying the
     invariant returns `cur p s k`, keeps the invariant, and changes neither the committed inputs nor
     the epoch, nor the external values, nor the world.
-    PARTIAL: programs without projection nodes. -/
-theorem core_query_sound_partial {p : Program} (wf : WF p) (np : NoProj p) {s : St} (inv : Inv p s)
+    PARTIAL: programs without a projection over a projection. -/
+theorem core_query_sound_partial {p : Program} (wf : WF p) (pf : NoProjOverProj p) {s : St} (inv : Inv p s)
     {k fuel : Nat} (hk : k < fuel) {v : Val} {s' : St} (h : query p fuel .user k s = .ok (v, s')) :
     cur p s k = some v ∧ Inv p s' ∧ inputsOf s' = inputsOf s ∧ s'.epoch = s.epoch ∧
       extOf p s' = extOf p s ∧ s'.world = s.world := by
-  obtain ⟨i, f, _, c, _⟩ := (query_spec wf np hk inv).ok h
+  obtain ⟨i, f, c, _⟩ := (query_spec wf pf hk inv).ok h
   exact ⟨c, i, f.inputs, f.epoch, f.ext, f.world⟩
 
 /-- the inner statement: every value handed to an executor (or compared by `check_callee`) — the
     result of a request by a QUERY caller, pedantic or not — equals `cur`; likewise for the
-    `RepairFirewall` caller.  PARTIAL: programs without projection nodes. -/
-theorem core_inner_query_sound_partial {p : Program} (wf : WF p) (np : NoProj p) {s : St} (inv : Inv p s)
+    `RepairFirewall` caller.  PARTIAL: programs without a projection over a projection. -/
+theorem core_inner_query_sound_partial {p : Program} (wf : WF p) (pf : NoProjOverProj p) {s : St} (inv : Inv p s)
     {k fuel : Nat} (hk : k < fuel) {v : Val} {s' : St} :
     (∀ c rv ped, query p fuel (.query c rv ped) k s = .ok (v, s') → cur p s k = some v ∧ Inv p s') ∧
     (query p fuel .repairFirewall k s = .ok (v, s') → cur p s k = some v ∧ Inv p s') := by
   refine ⟨fun c rv ped h => ?_, fun h => ?_⟩
-  · obtain ⟨i, _, _, c, _⟩ := (queryQ_spec wf np fuel ped k hk s inv).ok h
+  · obtain ⟨i, _, _, c, _⟩ := (queryQ_spec wf pf fuel ped k hk s inv).ok h
     exact ⟨c, i⟩
-  · obtain ⟨i, _, _, c, _⟩ := (queryF_spec wf np fuel k hk s inv).ok h
+  · obtain ⟨i, _, c, _⟩ := (queryF_spec wf pf fuel k hk s inv).ok h
     exact ⟨c, i⟩
 
 /-- non-vacuity: the firewall diamond `exF` after a session that changed the firewall's input (the
     firewall's value changes from 1 to 0): the user's query re-executes the firewall and everything
     above it and returns the from-scratch value -/
-example : WF exF ∧ NoProj exF ∧ Inv exF exFU ∧ 5 < fuelFor exF ∧ cur exF exFU 5 = some 5 ∧
+example : WF exF ∧ NoProjOverProj exF ∧ Inv exF exFU ∧ 5 < fuelFor exF ∧ cur exF exFU 5 = some 5 ∧
     (query exF (fuelFor exF) .user 5 exFU).toOption.map (fun r => (r.1, r.2.log)) = some (5, [2, 3, 4, 5]) :=
-  ⟨exF_wf, exF_noProj, exFU_inv, by decide, by decide, by decide⟩
+  ⟨exF_wf, exF_noProj.over, exFU_inv, by decide, by decide, by decide⟩
+
+/-- non-vacuity WITH A PROJECTION: the diamond `exD` after the session that changes the firewall: the
+    projection 3 is re-run by backward projection while the transitive firewall callees of key 5 are
+    repaired, then keys 4 and 5 -/
+example : WF exD ∧ NoProjOverProj exD ∧ Inv exD exDU ∧ cur exD exDU 5 = some 5 ∧
+    (query exD (fuelFor exD) .user 5 { exDU with log := [] }).toOption.map (fun r => (r.1, r.2.log)) =
+      some (5, [2, 3, 4, 5]) :=
+  ⟨exD_wf, exD_pf, exDU_inv, by decide, by decide⟩
 
 /-- non-vacuity: a session that the firewall ABSORBS (its input changes 1 → 2, its value stays 1):
     only the firewall is re-executed; the nodes above it are answered through clean, trusted edges -/
-example : WF exF ∧ NoProj exF ∧ Inv exF exFS ∧ cur exF exFS 5 = some 16 ∧
+example : WF exF ∧ NoProjOverProj exF ∧ Inv exF exFS ∧ cur exF exFS 5 = some 16 ∧
     (query exF (fuelFor exF) .user 5 exFS).toOption.map (fun r => (r.1, r.2.log)) = some (16, [2]) :=
-  ⟨exF_wf, exF_noProj, exFS_inv, by decide, by decide⟩
+  ⟨exF_wf, exF_noProj.over, exFS_inv, by decide, by decide⟩
 
 /-- non-vacuity with the shape of finding F1b: key 6 has firewall set `{3}`, its dependency 5 has
     switched to the equal-valued firewall 4 while only 5 was queried, and firewall 4's input has
     changed since: the clean edge `(6, 5)`… is dirty, the edge `(5, 4)` is clean but NOT trusted
     (firewall 4 is not verified in this epoch): it is repaired, and the answer is the from-scratch 8 -/
-example : WF exA ∧ NoProj exA ∧ Inv exA exAS ∧ (exAS.nodes 6).map (·.tfc) = some [3] ∧
+example : WF exA ∧ NoProjOverProj exA ∧ Inv exA exAS ∧ (exAS.nodes 6).map (·.tfc) = some [3] ∧
     (exAS.nodes 5).map (·.tfc) = some [4] ∧ exAS.dirty 5 4 = false ∧ trusted exAS 4 = false ∧
     cur exA exAS 6 = some 8 ∧
     (query exA (fuelFor exA) .user 6 exAS).toOption.map (fun r => (r.1, r.2.log)) = some (8, [4, 5, 6]) :=
-  ⟨exA_wf, exA_noProj, exAS_inv, by decide, by decide, by decide, by decide, by decide, by decide⟩
+  ⟨exA_wf, exA_noProj.over, exAS_inv, by decide, by decide, by decide, by decide, by decide, by decide⟩
 
 /-- "an input session (epoch bump, writes, commit with dirty propagation) re-establishes the engine
     invariant; each write reports Fresh / Updated / Unchanged exactly by presence / equality of the
@@ -103,47 +112,47 @@ example : Inv exF exFT ∧
 /-- "for every history of sessions and rounds run from the initial state, every value returned by
     every round equals the from-scratch value on the inputs committed at that point (and every write
     result is the reference one)"; the final state satisfies the invariant.
-    PARTIAL: programs without projection nodes (`C01_full_statement` is the statement for all). -/
-theorem core_history_sound_partial {p : Program} (wf : WF p) (np : NoProj p) {ops : List Op}
+    PARTIAL: programs without a projection over a projection (`C01_full_statement` is the statement for all). -/
+theorem core_history_sound_partial {p : Program} (wf : WF p) (pf : NoProjOverProj p) {ops : List Op}
     {outs : List OpOut} {s' : St} (h : runOps p ops {} = .ok (outs, s')) :
     OutOK p ops outs Ref.init ∧ Inv p s' :=
-  (runOps_spec wf np ops {} (Inv.init p)).ok h
+  (runOps_spec wf pf ops {} (Inv.init p)).ok h
 
 /-- termination is a conclusion, not an assumption: with fuel above the key a query by the user in a
     state satisfying the invariant never runs out of fuel — this includes the recursion through
-    `repair_transitive_firewall_callees`.  PARTIAL: programs without projection nodes. -/
-theorem core_query_no_out_of_fuel_partial {p : Program} (wf : WF p) (np : NoProj p) {s : St}
+    `repair_transitive_firewall_callees`.  PARTIAL: programs without a projection over a projection. -/
+theorem core_query_no_out_of_fuel_partial {p : Program} (wf : WF p) (pf : NoProjOverProj p) {s : St}
     (inv : Inv p s) {k fuel : Nat} (hk : k < fuel) : query p fuel .user k s ≠ .error .outOfFuel :=
-  (query_spec wf np hk inv).not_oof
+  (query_spec wf pf hk inv).not_oof
 
-/-- … and no history run with `fuelFor p` ever runs out of fuel.  PARTIAL: no projection nodes. -/
-theorem core_history_no_out_of_fuel_partial {p : Program} (wf : WF p) (np : NoProj p) (ops : List Op) :
+/-- … and no history run with `fuelFor p` ever runs out of fuel.  PARTIAL: no projection over a projection. -/
+theorem core_history_no_out_of_fuel_partial {p : Program} (wf : WF p) (pf : NoProjOverProj p) (ops : List Op) :
     runOps p ops {} ≠ .error .outOfFuel :=
-  (runOps_spec wf np ops {} (Inv.init p)).not_oof
+  (runOps_spec wf pf ops {} (Inv.init p)).not_oof
 
 /-- non-vacuity: the firewall diamond: session 2 is absorbed by the firewall (only key 2 runs),
     session 3 changes it (everything above runs) -/
-example : WF exF ∧ NoProj exF ∧ (runOps exF exDOps {}).toOption.map (·.1) =
+example : WF exF ∧ NoProjOverProj exF ∧ (runOps exF exDOps {}).toOption.map (·.1) =
     some [.sess [.fresh, .fresh], .round [16] [2, 3, 4, 5], .sess [.updated], .round [16] [2],
       .sess [.updated], .round [5] [2, 3, 4, 5]] :=
-  ⟨exF_wf, exF_noProj, by decide⟩
+  ⟨exF_wf, exF_noProj.over, by decide⟩
 
 /-- non-vacuity, finding F1b's shape: a dependency switches between two equal-valued firewalls under
     a node that is not re-queried; then the second firewall changes: the answer is 8 (today's
     implementation answers 7) -/
-example : WF exA ∧ NoProj exA ∧ (runOps exA exAOps {}).toOption.map (·.1) =
+example : WF exA ∧ NoProjOverProj exA ∧ (runOps exA exAOps {}).toOption.map (·.1) =
     some [.sess [.fresh, .fresh, .fresh], .round [7] [3, 5, 6], .sess [.updated], .round [7] [4, 5],
       .sess [.updated], .round [8] [4, 5, 6]] :=
-  ⟨exA_wf, exA_noProj, by decide⟩
+  ⟨exA_wf, exA_noProj.over, by decide⟩
 
-/-- the model with all five kinds (outside the proved fragment; validated by correspondence): the
-    diamond with a firewall AND A PROJECTION: session 2 is absorbed (only the firewall runs); session
+/-- the diamond with a firewall AND A PROJECTION (inside the proved fragment: the projection reads a
+    firewall): session 2 is absorbed (only the firewall runs); session
     3 changes the firewall: the projection 3 is re-run by backward projection (before key 5 is
     repaired), then keys 4 and 5 -/
-example : WF exD ∧ (runOps exD exDOps {}).toOption.map (·.1) =
+example : WF exD ∧ NoProjOverProj exD ∧ (runOps exD exDOps {}).toOption.map (·.1) =
     some [.sess [.fresh, .fresh], .round [16] [2, 3, 4, 5], .sess [.updated], .round [16] [2],
       .sess [.updated], .round [5] [2, 3, 4, 5]] :=
-  ⟨exD_wf, by decide⟩
+  ⟨exD_wf, exD_pf, by decide⟩
 
 /-- the order inside the last round of the previous example: firewall, projection (by backward
     projection, while the transitive firewall callees of key 5 are repaired), then 4 and 5 -/
@@ -155,10 +164,11 @@ example : (match runOps exD (exDOps.take 5) {} with
     the repair `f1p + f1q + f14` WITHOUT `f1r` answers with the stale 5 (so does today's
     implementation; replay `corpus/engine-acyclic/F1c.txt`): this model (`f1r`: a projection published
     with a changed set is treated like one whose value changed) answers 6, the from-scratch value -/
-theorem repair_without_f1r_unsound_shape : WF exC ∧ (runOps exC exCOps {}).toOption.map (·.1) =
+theorem repair_without_f1r_unsound_shape : WF exC ∧ NoProjOverProj exC ∧ Inv exC exCS ∧
+    cur exC exCS 6 = some 6 ∧ (runOps exC exCOps {}).toOption.map (·.1) =
     some [.sess [.fresh, .fresh], .round [5] [2, 4, 5, 6], .sess [.updated], .round [5] [2, 3, 4],
       .sess [.updated], .round [6] [3, 4, 5, 6]] :=
-  ⟨exC_wf, by decide⟩
+  ⟨exC_wf, exC_pf, exCS_inv, by decide, by decide⟩
 
 end Qbice.CoreFw
 
